@@ -11,10 +11,11 @@
 \*
 \* Levels, loosest first (parser/expression_parser.go, docs/operators.md):
 \*   1 ??(R)   2 .(L)   3 ||   4 &&   5 |   6 ^   7 &   8 == != === !== (N)   9 < <= > >= <=> (N)
+\*   0 ?: (nested ternaries always parenthesised)
 \*   10 << >>  11 + -   12 * / %   13 unary ! - ~ (int) (string)   14 **(R)
 EXTENDS Integers, Sequences, FiniteSets, TLC, Json
 
-CONSTANTS Family,      \* "pairs" | "triples" | "unary"
+CONSTANTS Family,      \* "pairs" | "triples" | "unary" | "ternary"
           Emit
 
 BinOps == {"??", ".", "||", "&&", "|", "^", "&", "==", "!=", "===", "!==", "<", "<=", ">", ">=", "<=>", "<<", ">>", "+", "-", "*", "/", "%", "**"}
@@ -31,7 +32,9 @@ Assoc(op) == IF op \in {"??", "**"} THEN "R" ELSE IF Level(op) \in {8, 9} THEN "
 Leaf(n) == [k |-> "leaf", n |-> n]
 Bin(op, l, r) == [k |-> "bin", op |-> op, l |-> l, r |-> r]
 Un(op, e) == [k |-> "un", op |-> op, e |-> e]
-Lvl(t) == CASE t.k = "leaf" -> 99 [] t.k = "un" -> UnaryLevel [] t.k = "bin" -> Level(t.op)
+\* ternary c ? t : f -- looser than every binary operator (level 0); nested ternaries are always parenthesised
+Tern(c, t, f) == [k |-> "tern", c |-> c, t |-> t, f |-> f]
+Lvl(t) == CASE t.k = "leaf" -> 99 [] t.k = "un" -> UnaryLevel [] t.k = "bin" -> Level(t.op) [] t.k = "tern" -> 0
 
 \* ---------------------------------------------------------------- printing
 Paren(s) == <<"(">> \o s \o <<")">>
@@ -39,6 +42,9 @@ RECURSIVE MinPrint(_)
 MinPrint(t) ==
   CASE t.k = "leaf" -> <<t.n>>
     [] t.k = "un" -> <<t.op>> \o (IF Lvl(t.e) < UnaryLevel THEN Paren(MinPrint(t.e)) ELSE MinPrint(t.e))
+    [] t.k = "tern" -> (IF t.c.k = "tern" THEN Paren(MinPrint(t.c)) ELSE MinPrint(t.c)) \o <<"?">>
+                       \o (IF t.t.k = "tern" THEN Paren(MinPrint(t.t)) ELSE MinPrint(t.t)) \o <<":">>
+                       \o (IF t.f.k = "tern" THEN Paren(MinPrint(t.f)) ELSE MinPrint(t.f))
     [] t.k = "bin" ->
          LET L == Level(t.op) A == Assoc(t.op)
              needL == Lvl(t.l) < L \/ (Lvl(t.l) = L /\ A # "L")
@@ -50,15 +56,16 @@ RECURSIVE FullPrint(_)
 FullPrint(t) ==
   CASE t.k = "leaf" -> <<t.n>>
     [] t.k = "un" -> Paren(<<t.op>> \o FullPrint(t.e))
+    [] t.k = "tern" -> Paren(FullPrint(t.c) \o <<"?">> \o FullPrint(t.t) \o <<":">> \o FullPrint(t.f))
     [] t.k = "bin" -> Paren(FullPrint(t.l) \o <<t.op>> \o FullPrint(t.r))
 
 \* ---------------------------------------------------------------- parsing by the table (precedence climbing)
 \* Parse functions return [t |-> tree, rest |-> remaining tokens].
 IsLeafTok(x) == x \in {"a", "b", "c", "d"}
-RECURSIVE ParseExpr(_, _, _), ParsePrimary(_, _), Climb(_, _, _, _)
+RECURSIVE ParseExpr(_, _, _), ParsePrimary(_, _), Climb(_, _, _, _), ParseFull(_, _)
 ParsePrimary(ts, dev) ==
   LET h == Head(ts) IN
-  IF h = "(" THEN LET r == ParseExpr(Tail(ts), 1, dev) IN [t |-> r.t, rest |-> Tail(r.rest)]      \* skip ")"
+  IF h = "(" THEN LET r == ParseFull(Tail(ts), dev) IN [t |-> r.t, rest |-> Tail(r.rest)]      \* skip ")"
   ELSE IF h \in UnOps THEN LET r == ParseExpr(Tail(ts), UnaryLevel, dev) IN [t |-> Un(h, r.t), rest |-> r.rest]
   ELSE [t |-> Leaf(h), rest |-> Tail(ts)]
 Climb(lhs, ts, minLvl, dev) ==
@@ -70,8 +77,16 @@ Climb(lhs, ts, minLvl, dev) ==
            \* operators of such a level side by side without parentheses)
        IN Climb(Bin(op, lhs, r.t), r.rest, minLvl, dev)
 ParseExpr(ts, minLvl, dev) == LET p == ParsePrimary(ts, dev) IN Climb(p.t, p.rest, minLvl, dev)
-ParseByTable(ts) == ParseExpr(ts, 1, FALSE).t
-ParseByDeviation(ts) == ParseExpr(ts, 1, TRUE).t
+\* a full expression: a binary expression, optionally followed by ? full : full
+ParseFull(ts, dev) ==
+  LET c == ParseExpr(ts, 1, dev) IN
+  IF c.rest # <<>> /\ Head(c.rest) = "?"
+  THEN LET t == ParseFull(Tail(c.rest), dev)          \* up to the matching ":"
+           f == ParseFull(Tail(t.rest), dev)          \* skip ":"
+       IN [t |-> Tern(c.t, t.t, f.t), rest |-> f.rest]
+  ELSE c
+ParseByTable(ts) == ParseFull(ts, FALSE).t
+ParseByDeviation(ts) == ParseFull(ts, TRUE).t
 
 \* ---------------------------------------------------------------- the families of trees
 A == Leaf("a")  Bb == Leaf("b")  Cc == Leaf("c")  Dd == Leaf("d")
@@ -85,7 +100,12 @@ TripleShape(i, o1, o2, o3) ==
 UnaryShape(i, u, o) ==
   CASE i = 1 -> Un(u, Bin(o, A, Bb)) [] i = 2 -> Bin(o, Un(u, A), Bb) [] i = 3 -> Bin(o, A, Un(u, Bb))
     [] i = 4 -> Un(u, Un(u, A)) [] i = 5 -> Bin(o, Un(u, Bin(o, A, Bb)), Cc)
-Trees(fam) == CASE fam = "pairs" -> {PairShape(i, o1, o2) : i \in 1..2, o1 \in BinOps, o2 \in BinOps}
+TernShape(i, o) ==
+  CASE i = 1 -> Tern(Bin(o, A, Bb), Cc, Dd) [] i = 2 -> Tern(A, Bb, Bin(o, Cc, Dd)) [] i = 3 -> Tern(A, Bin(o, Bb, Cc), Dd)
+    [] i = 4 -> Bin(o, Tern(A, Bb, Cc), Dd) [] i = 5 -> Bin(o, A, Tern(Bb, Cc, Dd))
+    [] i = 6 -> Tern(Un("!", A), Bb, Cc) [] i = 7 -> Un("-", Tern(A, Bb, Cc)) [] i = 8 -> Tern(A, Tern(Bb, Cc, Dd), A) [] i = 9 -> Tern(A, Bb, Tern(Cc, Dd, A))
+Trees(fam) == CASE fam = "ternary" -> {TernShape(i, o) : i \in 1..9, o \in BinOps}
+                [] fam = "pairs" -> {PairShape(i, o1, o2) : i \in 1..2, o1 \in BinOps, o2 \in BinOps}
                 [] fam = "triples" -> {TripleShape(i, o1, o2, o3) : i \in 1..5, o1 \in BinOps, o2 \in BinOps, o3 \in BinOps}
                 [] fam = "unary" -> {UnaryShape(i, u, o) : i \in 1..5, u \in UnOps, o \in BinOps}
 
